@@ -2138,6 +2138,13 @@ class Interp:
             if isinstance(src_, Unknown):
                 return self.fresh(f"next({src_.sym})")
             raise PyRaise(ExcVal("TypeError", (f"{type(src_).__name__} object is not an iterator",)))
+        if name == "map" and len(args) >= 2 and not kwargs and not any(isinstance(a, Unknown) for a in args[1:]):
+            # map(f, *iterables): f applied element-wise (to the shortest), through the interpreter
+            cols = [list(self.iterate(a)) for a in args[1:]]
+            return _Iter([self.call(args[0], list(row), {}) for row in zip(*cols)])
+        if name == "filter" and len(args) == 2 and not isinstance(args[1], Unknown):
+            items_ = list(self.iterate(args[1]))
+            return _Iter([x for x in items_ if (self.truth(x) if args[0] is None else self.truth(self.call(args[0], [x], {})))])
         if name in ("sum", "min", "max", "abs", "round", "int", "float", "str", "bool", "repr", "divmod", "pow", "hash", "id", "ord", "chr", "type", "iter", "next", "map", "filter"):
             if name in ("min", "max") and "key" in kwargs:
                 items = self.iterate(args[0]) if len(args) == 1 else list(args)
@@ -2232,6 +2239,11 @@ class Interp:
                 return getattr(_b, name)(*args, **kwargs)
             except Exception as ex:
                 raise PyRaise(ExcVal(type(ex).__name__, (str(ex),)))
+        if name in ("operator.is_", "operator.is_not") and len(args) == 2:
+            r_ = self.compare(ast.Is(), args[0], args[1])
+            if isinstance(r_, Unknown):
+                return Unknown(r_.sym, not r_.neg) if name.endswith("is_not") else r_
+            return (not r_) if name.endswith("is_not") else r_
         if name.startswith("operator.") and not any(_opaque(a) for a in args) and hasattr(operator, last):
             try:
                 return getattr(operator, last)(*args)
